@@ -120,6 +120,8 @@ def run(R):
             R.viol("C12.order", "header-then-payload", "try_serialize_record does not serialise the payload into the buffer that already holds the header", b, b.lines[0])
         R.inst("C12.order", "K6 flows-to", "header bytes precede payload in one buffer that is returned", len(pay), ok)
 
+    # (2b) hand-written Serialize/Deserialize pairs agree on the serde data-model kind
+    serde_pairs(R)
     # (3) decoders cannot panic
     R.no_panic_reach("C12.nopanic", [HDR + "RecordHeader::from_record", HDR + "RecordHeader::try_deserialize", HDR + "try_deserialize_record",
                                      HDR + "RecordHeader::is_record_of_type_chunk"], floor_bodies=8)
@@ -134,3 +136,44 @@ def chunk_rules(R, pfx):
     R.must_call(pfx + ".chunk-de", "ant_protocol::storage::chunks::<impl serde::de::Deserialize<'de> for %s>::deserialize" % CH if False else
                 "<%s as serde::de::Deserialize<'de>>::deserialize" % CH, [CH + "::new"], "Chunk's Deserialize builds through Chunk::new")
     R.must_call(pfx + ".chunk-new", CH + "::new", ["*XorName::from_content", "xor_name::XorName::from_content"], "Chunk::new derives the address from the content hash")
+
+
+SER_KIND = [("Serializer::serialize_u32", "u32"), ("Serializer::serialize_u64", "u64"), ("Serializer::serialize_u8", "u8"), ("Serializer::serialize_bytes", "bytes"),
+            ("Serializer::serialize_str", "str"), ("Serialize for bytes::bytes::Bytes>::serialize", "bytes"), ("Serialize for [T]>::serialize", "seq"),
+            ("Serialize for alloc::vec::Vec<T>>::serialize", "seq"), ("Serialize for str>::serialize", "str"), ("Serialize for alloc::string::String>::serialize", "str"),
+            ("Serializer::collect_seq", "seq"), ("Serializer::collect_str", "str")]
+DE_KIND = [("Deserialize<'de> for u32>::deserialize", "u32"), ("Deserialize<'de> for u64>::deserialize", "u64"), ("Deserialize<'de> for u8>::deserialize", "u8"),
+           ("Deserialize<'de> for bytes::bytes::Bytes>::deserialize", "bytes"), ("Deserialize<'de> for alloc::vec::Vec<T>>::deserialize", "seq"),
+           ("Deserialize<'de> for alloc::string::String>::deserialize", "str"), ("Deserialize<'de> for &'a [u8]>::deserialize", "bytes(borrowed-only)"),
+           ("Deserialize<'de> for &'a str>::deserialize", "str(borrowed-only)"), ("Deserialize<'de> for alloc::boxed::Box<[T]>>::deserialize", "seq")]
+
+
+def serde_pairs(R):
+    """every hand-written (non-derive) Serialize impl in the workspace and its Deserialize twin hand the same data-model kind to serde"""
+    import re
+    F = R.F
+    impls = {}
+    for b in F.bodies.values():
+        if b.kind == "assoc_fn" and b.mac is None and b.trait in ("serde::ser::Serialize", "serde::de::Deserialize") and b.crate != "node_launchpad":
+            ty = re.sub(r"<'[a-z_]+>", "", b.self_ty or "")
+            impls.setdefault(ty, {})[b.trait.split("::")[-1]] = b
+    n = 0
+    ok = True
+    detail = {}
+    for ty, pair in sorted(impls.items()):
+        if len(pair) != 2:
+            continue
+        n += 1
+        w = sorted({k for c in pair["Serialize"].calls for pat, k in SER_KIND if (c["ncallee"] or "").endswith(pat)})
+        r = sorted({k for c in pair["Deserialize"].calls for pat, k in DE_KIND if (c["ncallee"] or "").endswith(pat)})
+        detail[ty] = {"writes": w, "reads": r}
+        if not w or not r:
+            ok = False
+            R.viol("C12.serde-pairs", "unrecognised:%s" % ty, "cannot tell which serde kind the hand-written impls of %s use (writes %s, reads %s)" % (ty, w, r), pair["Serialize"], pair["Serialize"].lines[0])
+        elif w != r:
+            ok = False
+            R.viol("C12.serde-pairs", "kind-mismatch:%s" % ty, "%s is written as %s but read as %s: a value it encodes does not decode" % (ty, w, r), pair["Deserialize"], pair["Deserialize"].lines[0])
+    if n < 3:
+        ok = False
+        R.viol("C12.serde-pairs", "instance-floor", "expected >= 3 hand-written serde pairs (Chunk, RecordKind, PrettyPrintRecordKey), found %d" % n)
+    R.inst("C12.serde-pairs", "K7 table agreement", "hand-written Serialize/Deserialize twins use the same serde data-model kind", n, ok, detail)
